@@ -9,8 +9,10 @@ descriptor wrapper constructors (`Wsh::new`, `Sh::new`, `Sh::new_wsh`, `Bare::ne
 
 The model is the code that exists: same order of checks, same gates (`max_script_size <
 usize::MAX`), same early `Ok` for unsatisfiable fragments, same exec-stack formula, and the
-same OMISSIONS (`top_level_type_check` has no base-type test; `check_global_consensus_validity`
-looks at `pk_k`/`multi` keys but not at `pk_h` keys; `new_sortedmulti` checks nothing).
+same OMISSIONS (`check_global_consensus_validity` looks at `pk_k`/`multi` keys but not at `pk_h`
+keys; `new_sortedmulti` checks nothing; `TapTree::leaf` + `Tr::new` check nothing on the leaf;
+the wsh/sh/bare wrappers never call `validate`).  `top_level_type_check` has its base-type test
+again (fix 8a19a019).
 No imports beyond the shared models: linked into the driver.
 -/
 import MsVerif.Model.Ast
@@ -431,9 +433,11 @@ def mpScan : Option (Option Nat) → List Nat → Option (Option Nat)
       | some (some len) => mpScan (if len ≠ n then some none else st) ns
       | some none => mpScan st ns
 
-/-- `ScriptContext::top_level_type_check` AS IT IS: only the multipath-length scan, no base test -/
+/-- `ScriptContext::top_level_type_check`: the base type must be `B` (restored by fix 8a19a019),
+then the multipath-length scan -/
 def topLevelTypeCheck (K : KeyInfo) (ms : Ms) : Bool :=
-  mpScan none (ms.iterPk.map K.nPaths) != some none
+  (match typeOf ms with | some ty => ty.corr.base == .B | none => false)
+    && mpScan none (ms.iterPk.map K.nPaths) != some none
 
 /-- `BareCtx::other_top_level_checks` -/
 def bareTemplate : Ms → Bool
@@ -444,10 +448,6 @@ def bareTemplate : Ms → Bool
 /-- `Ctx::top_level_checks` -/
 def topLevelChecks (K : KeyInfo) (ctx : Ctx) (ms : Ms) : Bool :=
   topLevelTypeCheck K ms && (match ctx with | .bare => bareTemplate ms | _ => true)
-
-/-- the repaired `top_level_type_check` (proposed patch): base must be `B` -/
-def topLevelChecksFixed (K : KeyInfo) (ctx : Ctx) (ms : Ms) : Bool :=
-  (match typeOf ms with | some ty => ty.corr.base == .B | none => false) && topLevelChecks K ctx ms
 
 def isOk {ε α} : Except ε α → Bool | .ok _ => true | .error _ => false
 
@@ -462,7 +462,6 @@ inductive Entry
   | descFromStr          -- `Descriptor::from_str` of `wsh(..)`, `sh(..)`, bare, `tr(K,leaf)`
   | trFromStr            -- `Tr::from_str` (leaf validated with `Tap::CONSENSUS` only)
   | trNew                -- `TapTree::leaf` + `Tr::new`: no check on the leaf
-  | wrapperFixed         -- `wrapper` with the repaired `top_level_type_check`
   deriving DecidableEq, Repr
 
 /-- `from_str_insane`'s parameters -/
@@ -476,7 +475,6 @@ def accepts (env : KeyEnv) (K : KeyInfo) (ctx : Ctx) (e : Entry) (ms : Ms) : Boo
   | .msConsensus => isOk (validate env K ctx ctx.CONSENSUS ms)
   | .msInsane => isOk (validate env K ctx ctx.INSANE ms)
   | .wrapper => topLevelChecks K ctx ms
-  | .wrapperFixed => topLevelChecksFixed K ctx ms
   | .descFromStr =>
     match ctx with
     | .tap => isOk (validate env K ctx ctx.CONSENSUS ms) && isOk (validate env K ctx ctx.SANE ms)
